@@ -198,8 +198,103 @@ pub fn round(ctx: &Ctx, address: &str, tname: &str, nclients: usize, nbad: usize
     }
 }
 
+/// One pass of the quiet-period history on a fresh server: a burst of `burst` simultaneous
+/// connections (the pool grows), all closed, `gap` of silence, then connections opened one after
+/// the other and LEFT OPEN; each must be answered while the earlier ones sit idle.  Returns
+/// Err(description) when the j-th connection is not answered within the watchdog, saying whether
+/// closing the idle ones released it.
+fn quiet_gap_pass(gap: Duration, burst: usize, tag: &str) -> Result<Result<usize, String>, String> {
+    let mut server = Server::start(standard_service(SvcCfg::default()), Transport::UnixPath, ServerCfg { initial: 1, max: 200, idle_timeout: 0, with_stop_flag: true })?;
+    server.wait_ready()?;
+    let echo = |c: &mut RawConn, tok: &str, wait: Duration| -> Result<bool, String> {
+        c.write_all(&Req::new(Kind::Echo, Flags { more: false, oneway: false }, tok).to_bytes()).map_err(|e| format!("write: {}", e))?;
+        match c.read_frame(wait) {
+            ReadEv::Frame(f) if String::from_utf8_lossy(&f).contains(tok) => Ok(true),
+            ReadEv::Frame(f) => Err(format!("foreign or wrong reply {}", show(&f))),
+            ReadEv::Timeout => Ok(false),
+            ReadEv::Eof => Err("closed by the service".into()),
+            ReadEv::Error(e) => Err(e),
+        }
+    };
+    // burst: all connections open at the same time, each answered, then all closed
+    let mut conns = Vec::new();
+    for i in 0..burst {
+        let mut c = RawConn::connect(&server.address).map_err(|e| format!("connect: {}", e))?;
+        if !echo(&mut c, &format!("{}b{}", tag, i), Duration::from_secs(20))? {
+            return Err("burst connection not answered within 20 s (before the quiet period)".into());
+        }
+        conns.push(c);
+    }
+    drop(conns);
+    std::thread::sleep(gap);
+    let mut idle: Vec<RawConn> = Vec::new();
+    let mut verdict = Ok(burst);
+    for j in 0..burst {
+        let mut c = RawConn::connect(&server.address).map_err(|e| format!("connect: {}", e))?;
+        let tok = format!("{}g{}", tag, j);
+        if !echo(&mut c, &tok, Duration::from_secs(8))? {
+            // not answered while j idle connections are open: does closing them release it?
+            let n_idle = idle.len();
+            idle.clear();
+            let released = matches!(c.read_frame(Duration::from_secs(8)), ReadEv::Frame(f) if String::from_utf8_lossy(&f).contains(&tok));
+            verdict = Err(format!(
+                "after a burst of {} connections and {:.1} s of silence, connection #{} (with {} idle connections open, limit 200) got no reply within 8 s; {}",
+                burst,
+                gap.as_secs_f64(),
+                j + 1,
+                n_idle,
+                if released { "it was answered as soon as the idle connections were closed" } else { "it stayed unanswered for 8 more seconds after the idle connections were closed" }
+            ));
+            break;
+        }
+        idle.push(c);
+    }
+    drop(idle);
+    let _ = server.stop();
+    Ok(verdict)
+}
+
+/// Quiet periods are where timers in a pool (idle reaping, keep-alive) act; the random rounds
+/// never pause that long.  A shortfall is only a violation when it repeats on a second, fresh
+/// server; once is inconclusive.
+fn quiet_gap(ctx: &Ctx, gap: Duration, burst: usize, tag: &str) {
+    let mut fails = Vec::new();
+    for attempt in 0..2 {
+        match quiet_gap_pass(gap, burst, &format!("{}a{}", tag, attempt)) {
+            Err(e) => {
+                ctx.inconclusive(json!({"quiet_gap": e, "gap_s": gap.as_secs_f64()}));
+                return;
+            }
+            Ok(Ok(n)) => {
+                if attempt == 0 {
+                    ctx.case(Some(hash_of(&("quiet-gap", gap.as_millis() as u64, burst))));
+                    ctx.count("quiet_gap_histories", 1);
+                    ctx.count("connections_served_beside_idle_ones_after_quiet_gap", n as u64);
+                } else {
+                    ctx.inconclusive(json!({"quiet_gap": "a connection went unanswered once but not on a fresh server", "first": fails}));
+                }
+                return;
+            }
+            Ok(Err(m)) => fails.push(m),
+        }
+    }
+    ctx.violation("c13:idle-connections-block-another-after-quiet-period", json!({"engine": "c13-quiet-gap", "gap_ms": gap.as_millis() as u64, "burst": burst, "message": fails}));
+}
+
 pub fn main(ctx: &Ctx) -> i32 {
-    ctx.set_rule("2-64 simultaneous clients on unix and TCP against one listen() server (max_worker_threads 200), each pipelining a random token-tagged sequence at a random depth with random segmentation/delays, beside 0-8 misbehaving peers (idle, half a message, close mid-message, garbage, one byte every 2 ms) that stay open until every well-behaved client is done; distinct = (client count, transport, misbehaviour mix, observed completion order); non-trivial = >=2 clients overlapped in logical time");
+    let gaps: Vec<u64> = ctx.tier.pick(vec![1100, 2600, 5500], vec![1100, 2600, 5500, 10_500, 31_000, 61_000]);
+    std::thread::scope(|sc| {
+        for (i, g) in gaps.iter().enumerate() {
+            let g = *g;
+            sc.spawn(move || quiet_gap(ctx, Duration::from_millis(g), 4, &format!("q{}", i)));
+        }
+        main_rounds(ctx);
+    });
+    ctx.finish(ctx.tier.pick(20, 1000))
+}
+
+fn main_rounds(ctx: &Ctx) {
+    ctx.set_rule("2-64 simultaneous clients on unix and TCP against one listen() server (max_worker_threads 200), each pipelining a random token-tagged sequence at a random depth with random segmentation/delays, beside 0-8 misbehaving peers (idle, half a message, close mid-message, garbage, one byte every 2 ms) that stay open until every well-behaved client is done; plus quiet-period histories (burst of 4 simultaneous connections, all closed, 1.1/2.6/5.5 s of silence (thorough: up to 61 s), then 4 connections opened one by one and left open, each of which must be answered beside the idle ones); distinct = (client count, transport, misbehaviour mix, observed completion order); non-trivial = >=2 clients overlapped in logical time");
     ctx.assume("tokens are globally unique (round, client, index), so a foreign byte is recognisable; OS schedules are sampled, not controlled");
     let rounds = ctx.tier.pick(120usize, 6000usize);
     for (ti, &tr) in [Transport::UnixPath, Transport::Tcp].iter().enumerate() {
@@ -231,10 +326,14 @@ pub fn main(ctx: &Ctx) -> i32 {
             ctx.violation("c13:listen-returned-error", json!({"engine": "c13", "error": e}));
         }
     }
-    ctx.finish(ctx.tier.pick(20, 1000))
 }
 
 pub fn replay(ctx: &Ctx, w: &Value) {
+    if w.get("engine").and_then(|v| v.as_str()) == Some("c13-quiet-gap") {
+        let g = w.get("gap_ms").and_then(|v| v.as_u64()).unwrap_or(2600);
+        quiet_gap(ctx, Duration::from_millis(g), w.get("burst").and_then(|v| v.as_u64()).unwrap_or(4) as usize, "rp");
+        return;
+    }
     let mut server = Server::start(standard_service(SvcCfg { up: UpMode::Line, ..Default::default() }), Transport::UnixPath, ServerCfg { initial: 1, max: 200, idle_timeout: 0, with_stop_flag: true }).expect("server");
     server.wait_ready().expect("ready");
     let g = |k: &str| w.get(k).and_then(|v| v.as_u64()).unwrap_or(1);
